@@ -58,6 +58,8 @@ PROPS = {
                 nontrivial="value > 1"),
     "C09": dict(streams=["path"], exhaustive="every segment count 1..257 rooted/unrooted; each of the 4 positions over its alphabet and over all ASCII bytes",
                 nontrivial="non-empty string"),
+    "C10": dict(streams=["aml", "amlbig"], exhaustive="all flag combinations of the extended-interrupt and address-space descriptors",
+                nontrivial="any template or descriptor"),
     "C13": dict(streams=["sdt"], exhaustive="all op sequences of length <= 2 (3 in the thorough tier) over a 34-op alphabet on a 40-byte table; every declared length 0..80",
                 nontrivial="at least one operation"),
     "C14": dict(streams=["ent", "aml", "sdt", "cks"], exhaustive="", nontrivial="any object"),
